@@ -140,6 +140,18 @@ def check_case(case, res: Result):
             if n is None:
                 continue
             s_n = state(pid)
+            if isinstance(n, (p.AlarmNode, p.MacroNode)) and (
+                    (field in ("started", "completed") and old is True and new is False) or
+                    (field == "child_index" and new == 0 and old)):
+                # the repeatable scope n is being reset (its own fields change before those of its descendants): if a
+                # nested Watch/Alarm still has its interrupt registered, or a macro defined inside n has a call in
+                # progress, whatever executes those nodes survives the reset of the scope
+                for dnode in n.get_child_nodes(recursive=True):
+                    if (isinstance(dnode, p.NodeWithCondition) and registered.get(id(dnode), False)) or \
+                            (isinstance(dnode, p.MacroNode) and active_calls.get(dnode.macro_name, 0) >= 1):
+                        res.count("scope_resets_with_live_nested_executor")
+                        tainted |= taint_scope(n)
+                        break
             if field == "restarted":
                 res.count("restart_events")
                 if not isinstance(n, (p.WatchNode, p.AlarmNode, p.WhitespaceNode, p.ProgramNode)):
